@@ -228,12 +228,17 @@ def run(ctx, run):
                 raise AnalysisBroken("vbi_decode_wss_625: unexpected event type %r" % t)
             n_sites["ASPECT"] += 1
             nm = "ASPECT" if t == EV["ASPECT"] else "PROG_INFO"
+            rep3 = lambda a: (a.L.has(F_REP) and a.R is not None and a.R.const is not None and
+                              ((a.rel == ">=" and a.R.const >= 3) or (a.rel == ">" and a.R.const >= 2)))
+            same_word = [("byte 0 equals the last received byte 0", lambda a: a.eq_field(F_LAST) and _idx(f, a) == {0}),
+                         ("byte 1 equals the last received byte 1", lambda a: a.eq_field(F_LAST) and _idx(f, a) == {1}),
+                         ("repeat counter incremented and >= 3", lambda a: rep3(a) and (a.L.incr == "++" or _stepped_before(f, a, F_REP, "+")))]
+            if not all(any(p_(a) for a in atoms.atoms_at(f, i)) for _, p_ in same_word) and _counter_discipline(f, i, F_REP, F_LAST, rep3):
+                # the same clause in its decomposed form: the counter reaches 3 only by increments made under "same word"
+                same_word = [("repeat counter >= 3, every path to the test steps the counter under 'same word as last time' or "
+                              "clears it", rep3)]
             need(run, f, i, "RF-DOM", "RF-DOM:vbi_decode_wss_625:%s" % nm, "%s announcement" % nm,
-                 [("byte 0 equals the last received byte 0", lambda a: a.eq_field(F_LAST) and _idx(f, a) == {0}),
-                  ("byte 1 equals the last received byte 1", lambda a: a.eq_field(F_LAST) and _idx(f, a) == {1}),
-                  ("repeat counter incremented and >= 3", lambda a: (a.L.has(F_REP) and (a.L.incr == "++" or _stepped_before(f, a, F_REP, "+")) and a.R is not None
-                                                                     and a.R.const is not None and
-                                                                     ((a.rel == ">=" and a.R.const >= 3) or (a.rel == ">" and a.R.const >= 2)))),
+                 same_word + [
                   ("odd parity of the aspect bits (a value derived from buf, & 1, != 0)",
                    lambda a: a.rel == "!=" and a.R is not None and a.R.const == 0 and not a.L.fields and not a.L.calls
                    and _derives_from_param(f, a.L, 1) and _masks_bit0(f, a.L)),
@@ -246,6 +251,10 @@ def run(ctx, run):
         ok1, _ = atoms.must_pass(f, i, atoms.store_to_field(F_REP, 0))
         before = any(atoms.store_to_field(F_REP, 0)(f, j) for j in f.blocks[bid].elems[:flow.elem_pos(f)[i][1]])
         snd = atoms.reaches(f, bid, atoms.call_to(*SEND))
+        if snd is not None and (ok1 or before):
+            # reachable in the flow graph - also with the counter at 0?  (the word was replaced in a branch that joins the
+            # common `rep_ct < 3` exit)
+            snd = _reaches_with_fact(f, bid, i, F_REP, 0, atoms.call_to(*SEND), known=before)
         if (ok1 or before) and snd is None:
             run.holds("RF-CORR", key, "where the last received WSS word is replaced the repeat counter is reset to 0 on every "
                       "path and no announcement is reachable", ex.loc(f, i))
@@ -516,6 +525,79 @@ def _activation_only(ctx, run):
                           "announced again, and the next station change no longer drops the cache" % ex.pretty(f, i)[:60],
                           ex.loc(f, i), witness={"dominating": [repr(a) for a in ats]})
     run.floor("reset actions in vbi_event_enable", n, 5)
+
+
+def _field_store(f, i, field):
+    """[(op, rhs)] of the stores event i makes to record.member `field`."""
+    out = []
+    for lhs, var, op, rhs in flow.stores(f, i):
+        if lhs is None:
+            continue
+        le = f.exprs[ex.skip(f, lhs)]
+        if le["k"] == "mem" and "%s.%s" % (le.get("in"), le["member"]) == field:
+            out.append((op, rhs))
+    return out
+
+
+def _counter_discipline(f, site, f_rep, f_last, rep3):
+    """Decomposed debounce clause: the announcement is dominated by a test `counter >= 3`; every store to the counter is
+    either `:= 0` or a step by one that is dominated by 'byte 0 and byte 1 equal the last received word'; and every path
+    from the function entry to that test passes one of these stores (the value tested is the one this call left)."""
+    tests = [a for a in atoms.atoms_at(f, site) if rep3(a) and a.src is not None]
+    if not tests:
+        return False
+    store_blocks = set()
+    for bid, i in flow.all_events(f):
+        for op, rhs in _field_store(f, i, f_rep):
+            if op == "=" and rhs is not None and ex.const(f, rhs) == 0:
+                store_blocks.add(bid)
+                continue
+            if op == "++" or (op == "+=" and ex.const(f, rhs) == 1):
+                ats = atoms.atoms_at(f, i)
+                b0 = any(a.eq_field(f_last) and _idx(f, a) == {0} for a in ats)
+                b1 = any(a.eq_field(f_last) and _idx(f, a) == {1} for a in ats)
+                if b0 and b1:
+                    store_blocks.add(bid)
+                    continue
+            return False
+    for a in tests:
+        if a.src in store_blocks or a.src not in flow.reach_from(f, f.entry, avoid=store_blocks):
+            return True
+    return False
+
+
+def _reaches_with_fact(f, bid0, eid0, field, value, pred, known=False):
+    """Is an event satisfying pred reachable from just after event eid0 (in block bid0) while `field == value` is known
+    (until the field is stored to again)?  Branch edges whose atoms contradict the fact are not followed."""
+    import operator
+    OPS = {"<": operator.lt, "<=": operator.le, ">": operator.gt, ">=": operator.ge, "==": operator.eq, "!=": operator.ne}
+    pos = flow.elem_pos(f)[eid0][1]
+    work = [(bid0, pos + 1, known)]
+    seen = set()
+    while work:
+        b, k, fact = work.pop()
+        for i in f.blocks[b].elems[k:]:
+            if not flow.is_event(f, i):
+                continue
+            if pred(f, i):
+                return i
+            for op, rhs in _field_store(f, i, field):
+                fact = op == "=" and rhs is not None and ex.const(f, rhs) == value
+        for s2, lab in f.edges(b):
+            if fact and lab in ("T", "F"):
+                dead = False
+                for a in atoms.edge_atoms(f, b, lab):
+                    if a.R is not None and a.R.const is not None and a.L.has(field) and not a.L.calls \
+                            and a.L.incr is None and len(a.L.fields) == 1 and a.rel in OPS:
+                        n = f.exprs[a.L.node]
+                        if n["k"] == "mem" and not OPS[a.rel](value, a.R.const):
+                            dead = True
+                if dead:
+                    continue
+            if (s2, fact) not in seen:
+                seen.add((s2, fact))
+                work.append((s2, 0, fact))
+    return None
 
 
 def _stepped_before(f, a, field, sign):
